@@ -144,6 +144,7 @@ static inline bg_it bg_list_u__begin(const bg_list *l) {
   bg_it it;
   BG_ROW_CHECK(l);
   it.r = l->c;
+  it.p.len = it.p.nP = it.p.nQ = it.p.up = 0;
   it.idx = l->idx;
   it.poisoned = 0;
   it.cur = 0;
@@ -155,6 +156,7 @@ static inline bg_it bg_list_u__end(const bg_list *l) {
   bg_it it;
   BG_ROW_CHECK(l);
   it.r.len = it.r.nP = it.r.nQ = it.r.up = 0;
+  it.p = l->c;
   it.idx = l->idx;
   it.poisoned = 0;
   it.cur = 0;
@@ -175,6 +177,7 @@ static inline bg_bool bg_it_u__ne(bg_it a, bg_it b) { return !bg_it_u__eq(a, b);
 /* default-constructed (singular) iterator */
 static inline void bg_it_u__ctor(bg_it *it) {
   it->r.len = it->r.nP = it->r.nQ = it->r.up = 0;
+  it->p.len = it->p.nP = it->p.nQ = it->p.up = 0;
   it->cur = 0;
   it->idx = 0;
   it->bound = 0;
@@ -184,6 +187,7 @@ static inline void bg_it_u__ctor(bg_it *it) {
 #define BG_IT_SINGULAR_IDX (~(bg_size)0)
 static inline void bg_it_u__ctor_value(bg_it *it) {
   it->r.len = it->r.nP = it->r.nQ = it->r.up = 0;
+  it->p.len = it->p.nP = it->p.nQ = it->p.up = 0;
   it->cur = 0;
   it->idx = BG_IT_SINGULAR_IDX;
   it->bound = 0;
@@ -196,12 +200,18 @@ static inline const VertexIndex *bg_it_u__deref(const bg_it *it) {
 }
 static inline void bg__it_step(bg_it *it) {
   it->r.len--;
-  if (BG_IS_P(it->cur))
+  it->p.len++;
+  if (BG_IS_P(it->cur)) {
     it->r.nP--;
-  else if (BG_IS_Q(it->cur))
+    it->p.nP++;
+  } else if (BG_IS_Q(it->cur)) {
     it->r.nQ--;
-  if ((bg_size)it->cur >= it->idx)
+    it->p.nQ++;
+  }
+  if ((bg_size)it->cur >= it->idx) {
     it->r.up--;
+    it->p.up++;
+  }
   bg__it_arrive(it);
 }
 static inline bg_it *bg_it_u__preinc(bg_it *it) {
@@ -238,7 +248,11 @@ static inline bg_it bg_list_u__erase(bg_list *l, bg_it pos) {
     l->c.up--;
   }
   bg__rest_sub(l, 1, (bg_size)x >= l->idx, x == G_Q, x == G_P);
-  bg__it_step(&pos);
+  {
+    bg_cnt keep = pos.p; /* the erased element does not count as passed */
+    bg__it_step(&pos);
+    pos.p = keep;
+  }
   return pos;
 }
 /* erase(j) where j is a named variable: j is invalidated afterwards */
@@ -261,6 +275,10 @@ static inline bg_it bg_find_u(bg_it first, bg_it last, const VertexIndex *xp) {
                                : (first.r.len > first.r.nP + first.r.nQ && nondet_bg_bool());
   bg_it res = last;
   res.cur = x;
+  res.p.len = first.p.len + first.r.len;
+  res.p.nP = first.p.nP + first.r.nP;
+  res.p.nQ = first.p.nQ + first.r.nQ;
+  res.p.up = first.p.up + first.r.up;
   if (!found)
     return res;
   res.r.len = nondet_bg_size();
@@ -272,6 +290,10 @@ static inline bg_it bg_find_u(bg_it first, bg_it last, const VertexIndex *xp) {
   BG_ASSUME(BG_CNT_AX(res.r, res.idx) && BG_CNT_AX_SUM(res.r, res.idx));
   BG_ASSUME(!BG_IS_P(x) || res.r.nP > 0);
   BG_ASSUME(!BG_IS_Q(x) || res.r.nQ > 0);
+  res.p.len -= res.r.len;
+  res.p.nP -= res.r.nP;
+  res.p.nQ -= res.r.nQ;
+  res.p.up -= res.r.up;
   return res;
 }
 
@@ -324,6 +346,7 @@ static inline void bg__rest_sub(bg_list *l, bg_size k, bg_size kup, bg_size kq, 
     if (bg_ghost_frontier.a == o && l->idx < bg_ghost_frontier.F) {
       bg_ghost_frontier.below -= k;
       bg_ghost_frontier.belowUp -= kup;
+      bg_ghost_frontier.belowInQ -= kq;
     }
     BG_ASSUME(BG_REST_AX(*o));
     BG_ASSUME(l->c.len <= o->r.total && l->c.up <= o->r.totalUp);
@@ -348,6 +371,7 @@ static inline void bg__rest_add(bg_list *l, bg_bool isup, bg_bool isq, bg_bool i
     if (bg_ghost_frontier.a == o && l->idx < bg_ghost_frontier.F) {
       bg_ghost_frontier.below += 1;
       bg_ghost_frontier.belowUp += isup;
+      bg_ghost_frontier.belowInQ += isq;
     }
     BG_ASSUME(BG_REST_AX(*o));
     BG_ASSUME(l->c.len <= o->r.total && l->c.up <= o->r.totalUp);
@@ -401,9 +425,11 @@ static inline void bg_ghost_frontier_start(const bg_adj *a) {
   bg_ghost_frontier.F = 0;
   bg_ghost_frontier.below = 0;
   bg_ghost_frontier.belowUp = 0;
+  bg_ghost_frontier.belowInQ = 0;
   bg_ghost_frontier.rank = 0;
+  bg_ghost_frontier.rankQ = 0;
   if (a->n == 0)
-    BG_ASSUME(a->r.total == 0 && a->r.totalUp == 0); /* no rows, no entries */
+    BG_ASSUME(a->r.total == 0 && a->r.totalUp == 0 && BG_ADJ_INQ(*a) == 0); /* no rows, no entries */
 }
 /* move the frontier over row i (== F).  The row's current length is read from
    the observed row or from the cached cell; an uncached unobserved row
@@ -411,42 +437,75 @@ static inline void bg_ghost_frontier_start(const bg_adj *a) {
 static inline void bg_ghost_frontier_advance(const bg_adj *a, bg_size i) {
   __CPROVER_assert(bg_ghost_frontier.a == a && bg_ghost_frontier.F == i && i < a->n,
                    "ABSTRACTION frontier advanced out of order");
-  bg_size len, up;
+  bg_size len, up, inq;
   if (i == G_P) {
     len = a->rowP->c.len;
     up = a->rowP->c.up;
+    inq = G_P == G_Q ? a->rowP->c.nP : a->rowP->c.nQ;
   } else if (i == G_Q) {
     len = a->rowQ->c.len;
     up = a->rowQ->c.up;
+    inq = a->rowQ->c.nQ;
   } else if (bg_scratch_row.valid && bg_scratch_row.from == a && bg_scratch_row.row.idx == i) {
     len = bg_scratch_row.row.c.len;
     up = bg_scratch_row.row.c.up;
+    inq = G_P == G_Q ? bg_scratch_row.row.c.nP : bg_scratch_row.row.c.nQ;
   } else {
     len = nondet_bg_size();
     up = nondet_bg_size();
-    BG_ASSUME(up <= len && len <= a->r.restLen && up <= a->r.restUp);
+    inq = nondet_bg_size();
+    BG_ASSUME(up <= len && inq <= len && len <= a->r.restLen && up <= a->r.restUp && inq <= a->r.restInQ);
   }
   bg_ghost_frontier.below += len;
   bg_ghost_frontier.belowUp += up;
+  bg_ghost_frontier.belowInQ += inq;
   bg_ghost_frontier.F = i + 1;
-  BG_ASSUME(bg_ghost_frontier.below <= a->r.total && bg_ghost_frontier.belowUp <= a->r.totalUp);
+  BG_ASSUME(bg_ghost_frontier.below <= a->r.total && bg_ghost_frontier.belowUp <= a->r.totalUp &&
+            bg_ghost_frontier.belowInQ <= BG_ADJ_INQ(*a));
   if (bg_ghost_frontier.F == a->n)
-    BG_ASSUME(bg_ghost_frontier.below == a->r.total && bg_ghost_frontier.belowUp == a->r.totalUp);
+    BG_ASSUME(bg_ghost_frontier.below == a->r.total && bg_ghost_frontier.belowUp == a->r.totalUp &&
+              bg_ghost_frontier.belowInQ == BG_ADJ_INQ(*a));
 }
 
+/* move the frontier over row i whose size the caller knows (from a cursor that walked it) */
+static inline void bg_ghost_frontier_advance_by(const bg_adj *a, bg_size i, bg_size len, bg_size up, bg_size inq) {
+  __CPROVER_assert(bg_ghost_frontier.a == a && bg_ghost_frontier.F == i && i < a->n,
+                   "ABSTRACTION frontier advanced out of order");
+  bg_ghost_frontier.below += len;
+  bg_ghost_frontier.belowUp += up;
+  bg_ghost_frontier.belowInQ += inq;
+  bg_ghost_frontier.F = i + 1;
+  BG_ASSUME(bg_ghost_frontier.below <= a->r.total && bg_ghost_frontier.belowUp <= a->r.totalUp &&
+            bg_ghost_frontier.belowInQ <= BG_ADJ_INQ(*a));
+  if (bg_ghost_frontier.F == a->n)
+    BG_ASSUME(bg_ghost_frontier.below == a->r.total && bg_ghost_frontier.belowUp == a->r.totalUp &&
+              bg_ghost_frontier.belowInQ == BG_ADJ_INQ(*a));
+}
+/* ghost lemma: the frontier stands at the last row, whose size the caller knows */
+static inline void bg_ghost_frontier_last_by(const bg_adj *a, bg_size len, bg_size up, bg_size inq) {
+  if (bg_ghost_frontier.a == a && bg_ghost_frontier.F < a->n)
+    BG_ASSUME(bg_ghost_frontier.below + len <= a->r.total && bg_ghost_frontier.belowUp + up <= a->r.totalUp &&
+              bg_ghost_frontier.belowInQ + inq <= BG_ADJ_INQ(*a));
+  if (bg_ghost_frontier.a == a && bg_ghost_frontier.F + 1 == a->n)
+    BG_ASSUME(bg_ghost_frontier.below + len == a->r.total && bg_ghost_frontier.belowUp + up == a->r.totalUp &&
+              bg_ghost_frontier.belowInQ + inq == BG_ADJ_INQ(*a));
+}
 /* ghost lemma: when the frontier stands at the last row, below + that row is everything */
 static inline void bg_ghost_frontier_last(const bg_adj *a) {
   if (bg_ghost_frontier.a == a && bg_ghost_frontier.F + 1 == a->n) {
     bg_size i = bg_ghost_frontier.F;
     if (i == G_P)
       BG_ASSUME(bg_ghost_frontier.below + a->rowP->c.len == a->r.total &&
-                bg_ghost_frontier.belowUp + a->rowP->c.up == a->r.totalUp);
+                bg_ghost_frontier.belowUp + a->rowP->c.up == a->r.totalUp &&
+                bg_ghost_frontier.belowInQ + (G_P == G_Q ? a->rowP->c.nP : a->rowP->c.nQ) == BG_ADJ_INQ(*a));
     else if (i == G_Q)
       BG_ASSUME(bg_ghost_frontier.below + a->rowQ->c.len == a->r.total &&
-                bg_ghost_frontier.belowUp + a->rowQ->c.up == a->r.totalUp);
+                bg_ghost_frontier.belowUp + a->rowQ->c.up == a->r.totalUp &&
+                bg_ghost_frontier.belowInQ + a->rowQ->c.nQ == BG_ADJ_INQ(*a));
     else if (bg_scratch_row.valid && bg_scratch_row.from == a && bg_scratch_row.row.idx == i)
       BG_ASSUME(bg_ghost_frontier.below + bg_scratch_row.row.c.len == a->r.total &&
-                bg_ghost_frontier.belowUp + bg_scratch_row.row.c.up == a->r.totalUp);
+                bg_ghost_frontier.belowUp + bg_scratch_row.row.c.up == a->r.totalUp &&
+                bg_ghost_frontier.belowInQ + (G_P == G_Q ? bg_scratch_row.row.c.nP : bg_scratch_row.row.c.nQ) == BG_ADJ_INQ(*a));
   }
 }
 
